@@ -137,8 +137,10 @@ fn close<T: Sc>(a: &[T], b: &[T]) -> bool {
 
 /// jacobian() of a problem and whether it agrees with the Jacobian of a freshly built (fault free,
 /// unrecorded) problem at the same parameters; absence is judged by the specification
-fn jac_query<T: Sc>(rs: &RunSpec<T>, prob: &dyn Prob<T>) -> (bool, bool) {
+fn jac_query<T: Sc>(rs: &RunSpec<T>, prob: &dyn Prob<T>) -> (bool, bool, bool) {
     let j = prob.jacobian();
+    // exactly zero coefficients: every Jacobian column -(I-P) W D_k C vanishes whatever the derivatives are
+    let czero = prob.coeffs().map(|c| c.iter().all(|v| v.to64() == 0.0)).unwrap_or(false);
     let params = prob.params();
     let present = j.is_some();
     let fresh = match j {
@@ -156,7 +158,7 @@ fn jac_query<T: Sc>(rs: &RunSpec<T>, prob: &dyn Prob<T>) -> (bool, bool) {
             _ => true,
         },
     };
-    (present, fresh)
+    (present, fresh, czero)
 }
 
 pub struct RunOut {
@@ -230,7 +232,7 @@ pub fn record_run<T: Sc>(rs: &RunSpec<T>) -> RunOut {
                 };
                 items.push(Item::Marker("CSetEnd".into(), json!({"req_bits": req}), Some(snap(prob.as_ref()))))
             }
-            Ok(Some((present, fresh))) => items.push(Item::Marker("CJacEnd".into(), json!({"present": present, "fresh": fresh}), None)),
+            Ok(Some((present, fresh, czero))) => items.push(Item::Marker("CJacEnd".into(), json!({"present": present, "fresh": fresh, "czero": czero}), None)),
         }
     }
     if panicked || !rs.do_fit {
@@ -327,7 +329,7 @@ pub fn record_run<T: Sc>(rs: &RunSpec<T>) -> RunOut {
                     let calls = log.lock().unwrap().calls;
                     return finish_items(rs, items, calls, true, termination, false);
                 }
-                Ok((present, fresh)) => items.push(Item::Marker("CJacEnd".into(), json!({"present": present, "fresh": fresh}), None)),
+                Ok((present, fresh, czero)) => items.push(Item::Marker("CJacEnd".into(), json!({"present": present, "fresh": fresh, "czero": czero}), None)),
             }
         }
         // ... and it can be fitted again
